@@ -226,7 +226,7 @@ double rv(Rng& r, int cls) {
     switch (cls) {
     case V_SMALLINT: return double(r.range(-3, 3));
     case V_SPECIAL: return RV_SPECIAL[r.range(0, 9)];
-    case V_GAUSS: return r.gauss();
+    case V_GAUSS: return r.range(0, 7) == 0 ? (r.coin() ? 1.0 : -1.0) * (1.0 + (r.coin() ? 1 : -1) * std::pow(10.0, r.uni(-15.5, -3.0))) : r.gauss();   // some values log-uniformly close to +-1
     case V_WIDE: return (r.coin() ? 1.0 : -1.0) * r.logmag(-99.5, 99.5);
     default: return rv(r, r.range(0, 3));
     }
@@ -238,7 +238,11 @@ cmplx_t cv(Rng& r, int cls) {
         int k = r.range(0, 15);
         return {CV_SPECIAL[k][0], CV_SPECIAL[k][1]};
     }
-    case V_GAUSS: { double a = r.gauss(), b = r.gauss(); return {a, b}; }
+    case V_GAUSS: {
+        // one value in six lies log-uniformly close to the unit circle (phasors that drifted: a shortcut for "unit modulus" needs them)
+        if (r.range(0, 5) == 0) { const double m = 1.0 + (r.coin() ? 1 : -1) * std::pow(10.0, r.uni(-15.5, -3.0)), ph = r.uni(0, 6.283185307179586); return {m * std::cos(ph), m * std::sin(ph)}; }
+        double a = r.gauss(), b = r.gauss(); return {a, b};
+    }
     case V_WIDE: {
         int k = r.range(0, 9);
         if (k < 7) { double m = r.logmag(-99.5, 99.5), ph = r.uni(0, 6.283185307179586); return {m * std::cos(ph), m * std::sin(ph)}; }
